@@ -214,7 +214,13 @@ class Interp(ExprMixin):
         elif isinstance(tg, ast.Subscript):
             base = self.eval(tg.value)
             if isinstance(tg.slice, ast.Slice):
-                self.unknown("slice assignment", st)
+                if isinstance(base, (PyList, PyDict)):
+                    self.unknown("slice assignment", st)        # a list known item by item: not modelled
+                    return
+                # a sequence that is not built here (a parameter, an attribute) is modified in place: recorded as a store
+                self.event("store", {"container": self.to_term(base), "key": ("slice",) + tuple(self.to_term(self.eval(x_)) if x_ is not None else NONE
+                                                                                                   for x_ in (tg.slice.lower, tg.slice.upper, tg.slice.step)),
+                                     "value": self.to_term(v)}, st)
                 return
             idx = self.to_term(self.eval(tg.slice))
             self.store_item(base, idx, v, st)
@@ -543,6 +549,23 @@ class Interp(ExprMixin):
         return None
 
     def s_While(self, st):
+        # `while X: v = X.pop(0); BODY` (X a local name BODY never mentions) walks X from the front and leaves it empty:
+        # `for v in X: BODY`, then X = [] - one spelling
+        if isinstance(st.test, ast.Name) and st.body and not st.orelse and isinstance(st.body[0], ast.Assign) \
+                and len(st.body[0].targets) == 1 and isinstance(st.body[0].value, ast.Call) \
+                and isinstance(st.body[0].value.func, ast.Attribute) and st.body[0].value.func.attr == "pop" \
+                and isinstance(st.body[0].value.func.value, ast.Name) and st.body[0].value.func.value.id == st.test.id \
+                and len(st.body[0].value.args) == 1 and isinstance(st.body[0].value.args[0], ast.Constant) and st.body[0].value.args[0].value == 0 \
+                and not st.body[0].value.keywords and st.test.id in self.frame.env \
+                and not any(isinstance(n_, ast.Name) and n_.id == st.test.id for b_ in st.body[1:] for n_ in ast.walk(b_)) \
+                and not any(isinstance(n_, ast.Name) and n_.id == st.test.id for n_ in ast.walk(st.body[0].targets[0])) \
+                and not any(isinstance(n_, (ast.Break,)) for b_ in st.body for n_ in ast.walk(b_)):
+            loop_node = ast.For(target=st.body[0].targets[0], iter=st.test, body=st.body[1:] or [ast.Pass()], orelse=[])
+            ast.copy_location(loop_node, st)
+            ast.fix_missing_locations(loop_node)
+            out = self.s_For(loop_node)
+            self.frame.env[st.test.id] = PyList(base_loops=self.loops, base_guards=self.eff_guards())
+            return out
         loop = self.new_loop("while", self.to_term(self.eval(st.test)), st)
         self._run_loop(st, loop, None, None)
         return None
